@@ -345,6 +345,8 @@ def check_no_swallow(ctx, F, b, push_names):
         ok = sw is not None
         if ok:
             err_t = [x for v, x in sw["targets"] if v == 1]
+            if not err_t and sw.get("otherwise") is not None:
+                err_t = [sw["otherwise"]]      # `Ok(..) => .., other => ..`: the Err discriminant takes the default edge
             reporters = {bb2 for bb2, t2 in cfg.calls() if any(n.endswith("Vec::<T, A>::push") for n in callee_names(t2))}
             ok = bool(err_t) and (h not in cfg.reachable_from(err_t[0]) or
                                   (bool(reporters) and cfg.every_path_passes(err_t[0], h, reporters)))
